@@ -72,6 +72,21 @@ CHECKS.update({
    text="Every explicit-state search state (k<=1 full alphabet + k<=2 focused, all 8 configurations; thorough k<=2 full) x every read-only / encoding call of the statement with every option value: Validate, Marshal7951 / ConstructIETFJSON / EmitJSON x 4 RFC7951JSONConfig settings, EncodeTypedValue of the root, every sub-struct and every leaf value x JSON/JSON_IETF x caller-supplied config, TogNMINotifications with a caller-owned prefix, DeepCopy, GetNode on every node path x 4 options, Unmarshal of a decoded JSON tree, SetNode / UnmarshalSetRequest / UnmarshalNotifications (incl. TolerateJSONInconsistencies, atomic notifications and slices with spare capacity), gnmidiff with and without schema; Diff / DiffWithAtomic / MergeStructs on all ordered pairs of k<=1 states. Every argument must be unchanged afterwards: trees against a pristine twin (reflection dump incl. unexported fields), protobuf messages against clones plus sentinel elements beyond slice lengths, option structs, decoded JSON trees, the schema root.",
    technique="explicit-state enumeration of (state x API call x option) on the real implementation with an argument-unchanged frame law against pristine twins", note=TREE_NOTE),
 })
+
+CHECKS.update({
+ "C05": dict(engine="treemc", cat="model_checking", sec="5/C05",
+   text="Ordered pairs (a,b) of explicit-state search states: all pairs of k<=1 states over the full alphabet (plus extra overlapping leaf-list values), all pairs of k<=2 states over the ordered-list / unkeyed atoms and over the leaf-list atoms (thorough: k<=2 x k<=1 focused, all 8 packages) x {none, MergeOverwriteExistingFields, MergeEmptyMaps, MergeStructInto}. Each merge is judged against a reference merge on the path-to-value Model: success exactly when the reference accepts (leaf conflicts, overlapping-but-unequal leaf-lists / unkeyed lists, ordered lists neither disjoint nor same-order subset), result = union, no duplicate list keys, inputs equal their pristine twins, commutativity where both orders are accepted, overwrite never fails on leaf conflicts and b wins.",
+   technique="explicit-state enumeration of state pairs on the real implementation against a reference merge on the model", note=TREE_NOTE),
+ "C20": dict(engine="valmc", cat="exploration", sec="5/C20",
+   text="Deviation-bounded exhaustive malformation (no sampling): starting from valid inputs derived from explored k<=2 trees of three packages (their Marshal7951 documents, the gNMI paths of all nodes, TypedValues, SetRequests / Notifications) ALL inputs with <=1 deviation (thorough <=2) are generated - 13 JSON shape atoms at every member/element position, 17 path deviations per element/key, 52 TypedValue atoms, ~25 request-level deviations - plus every string of length <=6 (7) over {a / [ ] = \\ space} for the path parsers, and fed to Unmarshal, SetNode/GetNode/DeleteNode, UnmarshalSetRequest/UnmarshalNotifications, StringToPath*, DiffSetRequest/DiffSetRequestToNotifications (with and without schema). Oracle: the call returns; a recovered panic is a violation keyed by target and innermost ygot frame.",
+   technique="deviation-bounded exhaustive enumeration of malformed inputs around valid ones, executed on the real entry points with a returns-normally oracle", note=VAL_NOTE+"; a hang or fatal runtime error would abort the run rather than be reported"),
+ "C22": dict(engine="valmc", cat="exploration", sec="5/C22",
+   text="SetRequests derived from every explored state (k<=2) of the OpenConfig-style compressed package plus adversarial interface names, in every request form (per-leaf typed updates, per-leaf JSON scalars, JSON container updates at every grouping depth, replace-with-JSON, delete+updates) and under every intent-preserving rewrite (every prefix/path split, permutations of <=3 updates, leaf replace vs update, each update duplicated), with and without schema. Laws: DiffSetRequest(a,a) is empty; swapping arguments swaps missing/extra and A/B and keeps the common entries; whenever DiffSetRequest(a, r(a)) returns no error its diff is empty; no call panics.",
+   technique="exhaustive enumeration of requests and their intent-preserving rewrites over explored states, algebraic laws on the real gnmidiff functions", note=VAL_NOTE),
+ "C23": dict(engine="valmc", cat="exploration", sec="5/C23",
+   text="For every request of the C22 base set, notifications carrying exactly the leaves the intent writes (all layouts: 1-2 notifications, all prefix splits) must give an empty DiffSetRequestToNotifications; then every single-leaf edit (remove one leaf, change one value, add one leaf under a deleted/replaced subtree) must make that leaf and only that leaf appear as missing / mismatched / extra respectively.",
+   technique="exhaustive enumeration of single-leaf edits of exact notification sets over explored states, exact-classification oracle on the real function", note=VAL_NOTE),
+})
 ALL = [json.loads(l)["id"] for l in open(os.path.join(V, "properties.jsonl"))]
 NA = {
 }
